@@ -13,17 +13,17 @@ MC_Sizes  == {1, 3, 4, 6, 7}
 MC_SizesT == 1..7
 MC_World == {0, 1}
 
-MCInit == Init /\ pc = "idle"
+MCInit == Init /\ world = 0 /\ tok = 0 /\ pc = "idle"     \* one start state: only equality of world/tok matters
 MCNext == pc = "idle" /\ Next /\ pc' = "done"
 MCSpec == MCInit /\ [][MCNext]_mcvars
 
 \* the printed cell: invocation, normalised signer set S, the descriptor S0 is recovered by the driver
 \* from S (atoms that coincide are all listed), expected kind
 Cell ==
-  [act |-> ev.act, c |-> ev.c, m |-> ev.m, a |-> ev.a, v |-> ev.v, safe |-> ev.safe, cls |-> ev.cls,
+  [act |-> ev.act, c |-> ev.c, m |-> ev.m, a |-> ev.a, v |-> ev.v, safe |-> ev.safe, io |-> ev.io, cls |-> ev.cls,
    S |-> ev.S, n |-> ev.n,
    kind |-> IF ev.act = "verify" THEN (IF VerifyAccepts(ev.cls, ev.S) THEN "accept" ELSE "reject")
-            ELSE Kind(ev.safe, ev.cls, ev.S, ev.n)]
+            ELSE Kind(ev.safe, ev.io, ev.cls, ev.S, ev.n)]
 
 EmitCell == IF pc = "done" THEN PrintT("SCEN " \o ToJson(Cell)) ELSE TRUE
 
@@ -32,11 +32,11 @@ P_C03 == [][/\ C03_Inert(ev') /\ C03_Succeeds(ev') /\ C03_SafeInert(ev') /\ C03_
 \* vacuity guards: every kind of cell exists for every committee size
 HasKinds ==
   \A n \in Sizes : \A k \in {"inert", "succeed", "safe"} :
-     \E m \in Methods : \E S0 \in SetsFor(m) : Kind(m.safe, ClassOf(m), Norm(S0, ClassOf(m), n), n) = k
+     \E m \in Methods : \E S0 \in SetsFor(m) : Kind(m.safe, m.io, ClassOf(m), Norm(S0, ClassOf(m), n), n) = k
 \* every mutating method whose class can be satisfied has an exactly-sufficient cell, and every one an insufficient cell
 EveryMethodDecided ==
   \A n \in Sizes : \A m \in Methods : ~m.safe =>
-     /\ ClassOf(m) \notin {"never"} => \E S0 \in SetsFor(m) : Exact(ClassOf(m), Norm(S0, ClassOf(m), n), n)
+     /\ (~m.io /\ ClassOf(m) \notin {"never"}) => \E S0 \in SetsFor(m) : Exact(ClassOf(m), Norm(S0, ClassOf(m), n), n)
      /\ ClassOf(m) \notin {"none"}  => \E S0 \in SetsFor(m) : ~Sufficient(ClassOf(m), Norm(S0, ClassOf(m), n))
 \* the committee account satisfies an Alphabet-only class exactly when the two accounts coincide
 ThresholdConfusion ==
